@@ -20,16 +20,27 @@ enum { CELL_READERS = 0, CELL_WRITERS = 1, CELL_BARRIER = 2, CELL_SEQ = 3, CELL_
 
 Resource *g_res;   // the object under test of the execution in progress (for the state fingerprint)
 
-uint64_t resource_state() {
-    if (!g_res) return 0;
+// The harness reads the private state of the Resource for the state fingerprint.  A refactoring of tulz may rename these members: the layout is probed at compile time, and
+// when it is not the one known here the fingerprint falls back to nothing (it is then only used for counting) and the stateful programs, which need a complete state, are left out.
+template<typename R> constexpr bool known_layout_v = requires(R &r) {
+    (uint64_t)r.m_activeOp; (uint64_t)r.m_activeCount; (uint64_t)r.m_idCounter; (uint64_t)r.m_upperUnlockBound; r.m_queue.begin();
+    (uint64_t)r.m_queue.front().type; (uint64_t)r.m_queue.front().upperBound;
+};
+constexpr bool kKnownLayout = known_layout_v<Resource>;
+
+template<typename R> uint64_t resource_state_of(R *res) {
     uint64_t h = 9;
-    h = vs_mix(h, (uint64_t)g_res->m_activeOp);
-    h = vs_mix(h, g_res->m_activeCount);
-    h = vs_mix(h, (uint64_t)g_res->m_idCounter);
-    h = vs_mix(h, (uint64_t)g_res->m_upperUnlockBound);
-    for (auto &op : g_res->m_queue) h = vs_mix(h, ((uint64_t)op.type << 32) ^ (uint64_t)op.upperBound);
+    if constexpr (known_layout_v<R>) {
+        h = vs_mix(h, (uint64_t)res->m_activeOp);
+        h = vs_mix(h, (uint64_t)res->m_activeCount);
+        h = vs_mix(h, (uint64_t)res->m_idCounter);
+        h = vs_mix(h, (uint64_t)res->m_upperUnlockBound);
+        for (auto &op : res->m_queue) h = vs_mix(h, ((uint64_t)op.type << 32) ^ (uint64_t)op.upperBound);
+    }
     return h;
 }
+template<typename R> long ticket_of_parking_thread(R *res) { if constexpr (known_layout_v<R>) return (long)res->m_idCounter; else return 0; }
+uint64_t resource_state() { return g_res ? resource_state_of(g_res) : 0; }
 
 struct Spec {
     std::vector<std::string> scripts;   // one per thread; characters R / W = one critical section each
@@ -145,7 +156,7 @@ void st_park(int tid) {
     long out = vs_cell_get(tc(tid, C_OUT));
     if (!out || vs_cell_get(tc(tid, C_WAIT))) return;
     vs_cell_set(tc(tid, C_WAIT), 1);
-    vs_cell_set(tc(tid, C_TICKET), (long)g_res->m_idCounter);      // id + 1
+    vs_cell_set(tc(tid, C_TICKET), ticket_of_parking_thread(g_res));      // id + 1
     if (g_st_share && out == 'R' && vs_cell_get(CELL_WACTIVE) == 0 && vs_cell_get(CELL_WDONE) == vs_cell_get(tc(tid, C_WSEEN)))
         vs_fail("reader sharing violated: the read request of t%d has to wait although no write request is active or waiting (and none was since the request was issued)", tid);
 }
@@ -296,6 +307,7 @@ void run(const Spec &s) {
 std::string join(const std::vector<std::string> &v) { std::string s; for (auto &x : v) { if (!s.empty()) s += ","; s += x; } return s; }
 
 void add(VSuite &suite, Spec s, int bound, const std::string &flavour, bool unlock_points = false) {
+    if (s.stateful && !kKnownLayout) return;      // the stateful pass needs the complete state of the Resource (see known_layout_v)
     VProgram p;
     std::string nm = s.rendezvous ? "rendezvous" + std::to_string(s.rendezvous) : (s.holder ? std::string("hold") + s.holder + (s.ordered_arrival ? "-ordered-" : "-") : std::string()) + join(s.scripts);
     if (!s.late.empty()) nm += "+late-" + join(s.late);
@@ -384,7 +396,7 @@ bool provider(const std::string &prop, const std::string &tier, const std::strin
         // read requests that queue up consecutively behind ONE writer are granted together even when the writer becomes active between their arrivals
         // (B = read section whose holder waits inside for the other B's; no second writer exists that could legitimately separate them)
         for (bool st : {false, true}) {
-            if (st && flavour != "plain") continue;
+            if (st && flavour != "plain" && flavour != "hooked") continue;
             { Spec s = base; s.holder = 'R'; s.ordered_arrival = true; s.scripts = {"W", "B"}; s.late = {"B"}; s.stateful = st; add(suite, s, 2, flavour); }
             { Spec s = base; s.holder = 'W'; s.ordered_arrival = true; s.scripts = {"B"}; s.late = {"B"}; s.stateful = st; add(suite, s, 2, flavour); }
             { Spec s = base; s.holder = 'R'; s.ordered_arrival = true; s.scripts = {"W", "B"}; s.late = {"B", "B"}; s.stateful = st; add(suite, s, thorough ? 2 : 1, flavour); }
@@ -395,7 +407,7 @@ bool provider(const std::string &prop, const std::string &tier, const std::strin
         { Spec s = base; s.rendezvous = 2; s.late = {"R", "R"}; add(suite, s, thorough ? 2 : 1, flavour); }
         { Spec s = base; s.rendezvous = 3; s.late = {"R"}; add(suite, s, thorough ? 2 : 1, flavour); }
         if (thorough) { Spec s = base; s.rendezvous = 2; s.late = {"RR"}; add(suite, s, 2, flavour); }
-        if (flavour == "plain") {
+        if (flavour == "plain" || flavour == "hooked") {
             // stateful pass: ALL schedules
             for (int n = 2; n <= (thorough ? 6 : 5); n++) { Spec s = base; s.scripts.assign(n, "R"); s.stateful = true; add(suite, s, 0, flavour); }
             for (auto &v : multisets(3, {"R", "W"})) { Spec s = base; s.scripts = v; s.stateful = true; add(suite, s, 0, flavour); }
@@ -427,7 +439,7 @@ bool provider(const std::string &prop, const std::string &tier, const std::strin
     { Spec s = base; s.scripts = {"W", "R", "R", "W"}; s.spurious = 1; add(suite, s, 2, flavour); }
     { Spec s = base; s.scripts = {"RW", "WR"}; s.spurious = 1; add(suite, s, 2, flavour); }
     // ---- stateful pass: ALL schedules of these programs (no preemption bound)
-    if (flavour == "plain") {
+    if (flavour == "plain" || flavour == "hooked") {
         for (auto &v : multisets(3, {"R", "W"})) { Spec s = base; s.scripts = v; s.stateful = true; add(suite, s, 0, flavour); }
         if (getenv("VERIF_AUDIT")) for (auto &v : multisets(3, {"R", "W"})) { Spec s = base; s.scripts = v; s.stateful = true; s.audit = true; add(suite, s, 0, flavour); }
         for (auto &v : multisets(2, {"RR", "RW", "WR", "WW"})) { Spec s = base; s.scripts = v; s.stateful = true; add(suite, s, 0, flavour); }
